@@ -42,8 +42,10 @@ theorem bindLabel_cfg (h : Holder) (id toSec toOff : Nat) : (h.bindLabel id toSe
     · rfl
     · split
       · rfl
-      · show ((resolveFixups _ toSec toOff le.fixups).1).cfg = h.cfg
-        rw [resolveFixups_cfg]; rfl
+      · split
+        · rfl
+        · show ((resolveFixups _ toSec toOff le.fixups).1).cfg = h.cfg
+          rw [resolveFixups_cfg]; rfl
 
 theorem asmBind_cfg (h : Holder) (c : Cur) (id : Nat) : (asmBind h c id).1.cfg = h.cfg := bindLabel_cfg h id c.sec c.off
 
@@ -117,7 +119,8 @@ theorem serialize_cfg (ns : List Node) : ∀ h c, (serialize h c ns).1.cfg = h.c
 /-! ### emitter / world frame -/
 
 /-- what attachment (and the constructor) fixed on the emitter side -/
-def Emitter.tag (e : Emitter) : Bool × Kind × Bool := (e.code, e.kind, e.fam64)
+def Emitter.tag (e : Emitter) : (Bool × Kind × Bool) × (Option Arch × Nat × Bool) :=
+  ((e.code, e.kind, e.fam64), (e.arch, e.instAlign, e.invalidRex))
 
 theorem setCur_tag (e : Emitter) (c : Cur) : (e.setCur c).tag = e.tag := rfl
 theorem addNode_tag (e : Emitter) (n : Node) : (e.addNode n).tag = e.tag := by
@@ -313,8 +316,8 @@ theorem inv_frame_attached (w w' : World) (i : Nat) (e : Emitter) (hw : Inv w) (
   have hatt : w'.h.attached = w.h.attached := congrArg Prod.snd hcfg
   have harch : w'.h.arch = w.h.arch := congrArg Prod.fst hcfg
   have hia : i ∈ w.h.attached := hw.ac i e hi hc
-  have hcode : e'.code = e.code := congrArg Prod.fst htag
-  have hproj : proj e' = proj e := congrArg Prod.snd htag
+  have hcode : e'.code = e.code := congrArg (fun t => t.1.1) htag
+  have hproj : proj e' = proj e := congrArg (fun t => t.1.2) htag
   have get : ∀ j, w'.es[j]? = if j = i then some e' else w.es[j]? := by
     intro j; rw [hes, updAt_getElem?]
     by_cases hji : j = i
@@ -423,7 +426,7 @@ theorem inv_init (w : World) (a : Arch) (hw : Inv w) : Inv (w.init a).1 := by
   simp only [World.init]
   split
   · exact hw
-  · exact ⟨hw.ac, hw.dc, hw.fm, fun h => by simp at h⟩
+  · exact ⟨hw.ac, hw.dc, hw.fm, fun h => by simp [Holder.alloc] at h⟩
 
 theorem detached_clean (e : Emitter) : Clean e.onDetach := by
   cases e with | mk k _ _ _ _ _ _ _ _ _ _ _ _ _ _ _ _ _ _ _ _ _ _ => cases k <;> simp [Clean, Emitter.onDetach, Emitter.obs]
@@ -467,7 +470,7 @@ theorem inv_reinit (w : World) (hw : Inv w) : Inv w.reinit.1 := by
   · exact hw
   · have hproj := applyAll_map_proj proj Emitter.onReinit (fun e => by cases e with | mk k _ _ _ _ _ _ _ _ _ _ _ _ _ _ _ _ _ _ _ _ _ _ => cases k <;> rfl) w.h.attached w.es
     have hcode := applyAll_map_proj Emitter.code Emitter.onReinit (fun e => by cases e with | mk k _ _ _ _ _ _ _ _ _ _ _ _ _ _ _ _ _ _ _ _ _ _ => cases k <;> rfl) w.h.attached w.es
-    refine ⟨?_, ?_, ?_, fun h => by simp [Holder.resetContainers] at h; rename_i hi; simp [h] at hi⟩
+    refine ⟨?_, ?_, ?_, fun h => by simp [Holder.resetContainers, Holder.alloc] at h; rename_i hi; simp [h] at hi⟩
     · intro j x hx hc
       show j ∈ w.h.attached
       simp only [reinitAll] at hx
@@ -642,7 +645,7 @@ theorem inv_step (w : World) (op : Op) (hw : Inv w) (hop : op.wfAt w) : Inv (w.s
       · rw [if_pos hc]; exact inv_frame_attached w _ i e hw hi hc (genAttached_frame w i e o hi)
       · rw [if_neg hc]; exact hw
   cases op
-  case world f => exact inv_fresh f
+  case world f st => exact inv_of_sim (freshOf f) _ (by cases f <;> rfl) (inv_fresh f)
   case init a => exact inv_init w a hw
   case reset hard => exact inv_reset w hard hw
   case reinit => exact inv_reinit w hw
